@@ -60,6 +60,13 @@ RemoveJob(which, j) ==
   /\ TourOp(which, Cur(which), T_Remove(Cur(which), j))
   /\ UNCHANGED <<availA, availB, knownB>>
   /\ Log([name |-> "remove", on |-> which, j |-> j, t |-> 0, i |-> 0], IF j \in T_JobsOf(Cur(which)) THEN "true" ELSE "false")
+\* removal addressed through the handle of ONE TASK of a multi-task job (`Job::Single(sub)`): such a handle is no member of any tour (its
+\* activities belong to the multi job), so nothing is removed and the answer is false
+RemoveBySubJob(which, j, t) ==
+  /\ Cur(which) # NoCopy
+  /\ TourOp(which, Cur(which), Cur(which))
+  /\ UNCHANGED <<availA, availB, knownB>>
+  /\ Log([name |-> "remove_sub", on |-> which, j |-> j, t |-> t, i |-> 0], "false")
 \* index over all activities: 0 is the start, Len+1 the end of a closed tour (removing them panics by contract)
 RemoveActivityAt(which, i) ==
   /\ Cur(which) # NoCopy /\ i \in 0..(Len(Cur(which)) + 2)
@@ -96,6 +103,7 @@ Next == /\ Len(hist) < Depth
         /\ \/ \E w \in {"A", "B"}, x \in Acts, i \in 1..5 : InsertAt(w, x, i)
            \/ \E w \in {"A", "B"}, x \in Acts : InsertLast(w, x)
            \/ \E w \in {"A", "B"}, j \in Jobs : RemoveJob(w, j)
+           \/ \E w \in {"A", "B"}, x \in { x \in Acts : \E y \in Acts : y[1] = x[1] /\ y[2] # x[2] } : RemoveBySubJob(w, x[1], x[2])
            \/ \E w \in {"A", "B"}, i \in 0..6 : RemoveActivityAt(w, i)
            \/ TourDeepCopy
            \/ \E w \in {"A", "B"}, a \in Actors, n \in {"use_actor", "get_route"} : UseActor(w, a, n)
